@@ -104,7 +104,9 @@ fn gen_ctor(rng: &mut Rng) -> Value {
         6 => f ^ 1 << rng.range(12, 51),
         _ => f | 0x18,
     };
-    let r = rng.range(R_MIN, R_MAX);
+    // one constructor call in six is for a recursive index of the kernel half (shadow pages)
+    let r = if rng.chance(17) { *rng.pick(&[256u64, 257, 510, 511, 511, 384, 300, 448]) + 0 } else { rng.range(R_MIN, R_MAX) };
+    let r = if r >= 256 && rng.chance(40) { rng.range(256, 511) } else { r };
     let mut idx = [r; 4];
     let mut mapped = true;
     if rng.chance(40) {
@@ -194,11 +196,30 @@ pub fn gen(seed: u64) -> Replay {
 
 // ---- harness-owned memory at fixed addresses -------------------------------------------------
 
-struct Maps(Vec<u64>);
+/// Pages the harness provides at fixed addresses: a real anonymous page where a ring-3 process can
+/// have one (lower half), otherwise a *shadow* page anywhere plus a redirect in the simulator
+/// (usim::world: accesses to the kernel-half page are steered to the shadow, one instruction at a
+/// time).
+struct Maps {
+    real: Vec<u64>,
+    shadow: Vec<(u64, u64)>,
+}
 
 impl Maps {
+    fn new() -> Maps {
+        Maps { real: vec![], shadow: vec![] }
+    }
     /// one zeroed read/write page exactly at `va`; false if the address is taken
     fn map(&mut self, va: u64) -> bool {
+        if va >> 47 != 0 {
+            let r = unsafe { libc::mmap(core::ptr::null_mut(), 4096, libc::PROT_READ | libc::PROT_WRITE, libc::MAP_PRIVATE | libc::MAP_ANONYMOUS, -1, 0) };
+            if r == libc::MAP_FAILED {
+                return false;
+            }
+            self.shadow.push((va, r as u64));
+            world().redirects.push((va, r as u64));
+            return true;
+        }
         let r = unsafe { libc::mmap(va as *mut libc::c_void, 4096, libc::PROT_READ | libc::PROT_WRITE, libc::MAP_PRIVATE | libc::MAP_ANONYMOUS | libc::MAP_FIXED_NOREPLACE, -1, 0) };
         if r == libc::MAP_FAILED || r as u64 != va {
             if r != libc::MAP_FAILED {
@@ -206,20 +227,119 @@ impl Maps {
             }
             return false;
         }
-        self.0.push(va);
+        self.real.push(va);
         true
     }
     fn put(&self, va: u64, index: u64, val: u64) {
-        debug_assert!(self.0.contains(&va));
-        unsafe { ((va + 8 * (index & 511)) as *mut u64).write_volatile(val) }
+        let at = match self.shadow.iter().find(|(v, _)| *v == va) {
+            Some((_, sh)) => *sh,
+            None => {
+                debug_assert!(self.real.contains(&va));
+                va
+            }
+        };
+        unsafe { ((at + 8 * (index & 511)) as *mut u64).write_volatile(val) }
     }
 }
 
 impl Drop for Maps {
     fn drop(&mut self) {
-        for va in self.0.drain(..) {
+        for va in self.real.drain(..) {
             unsafe { libc::munmap(va as *mut libc::c_void, 4096) };
         }
+        for (_, sh) in self.shadow.drain(..) {
+            unsafe { libc::munmap(sh as *mut libc::c_void, 4096) };
+        }
+        world().redirects.clear();
+    }
+}
+
+/// What a step executed in a forked child reports back (the child may have to give up on an
+/// instruction the redirect machinery does not understand: exit status 4).
+enum Child {
+    Done(Result<(Ctor, Option<(u64, Probe)>), String>, Vec<Ev>, u64),
+    Unsupported,
+    Crashed(i32),
+}
+
+fn in_child(f: impl FnOnce() -> (Result<(Ctor, Option<(u64, Probe)>), String>, Vec<Ev>, u64)) -> Child {
+    use std::io::Read;
+    unsafe {
+        let mut fds = [0i32; 2];
+        if libc::pipe(fds.as_mut_ptr()) != 0 {
+            eprintln!("HARNESS-ERROR: pipe");
+            std::process::exit(2);
+        }
+        let pid = libc::fork();
+        if pid < 0 {
+            eprintln!("HARNESS-ERROR: fork");
+            std::process::exit(2);
+        }
+        if pid == 0 {
+            libc::close(fds[0]);
+            let (res, trace, n) = f();
+            // result: code, l4, probe code, probe frame; then the trace as (kind, value) pairs
+            let mut w: Vec<u64> = vec![];
+            match &res {
+                Err(_) => w.extend([9, 0, 0, 0]),
+                Ok((c, used)) => {
+                    let cc = match c {
+                        Ctor::Ok => 0,
+                        Ctor::NotRecursive => 1,
+                        Ctor::NotActive => 2,
+                    };
+                    let (l4, pc, pf) = match used {
+                        None => (0, 3, 0),
+                        Some((l4, Probe::Frame(f))) => (*l4, 0, *f),
+                        Some((l4, Probe::NotMapped)) => (*l4, 1, 0),
+                        Some((l4, Probe::Other)) => (*l4, 2, 0),
+                    };
+                    w.extend([cc, l4, pc, pf]);
+                }
+            }
+            w.push(n);
+            for e in &trace {
+                match e {
+                    Ev::ReadCr { cr: 3, val } => w.extend([1, *val]),
+                    _ => w.extend([2, 0]),
+                }
+            }
+            let bytes: Vec<u8> = w.iter().flat_map(|x| x.to_le_bytes()).collect();
+            libc::write(fds[1], bytes.as_ptr() as *const libc::c_void, bytes.len());
+            libc::_exit(0);
+        }
+        libc::close(fds[1]);
+        let mut file = <std::fs::File as std::os::fd::FromRawFd>::from_raw_fd(fds[0]);
+        let mut buf = vec![];
+        let _ = file.read_to_end(&mut buf);
+        let mut status = 0i32;
+        libc::waitpid(pid, &mut status, 0);
+        let code = if libc::WIFEXITED(status) { libc::WEXITSTATUS(status) } else { 128 + libc::WTERMSIG(status) };
+        if code == 4 {
+            return Child::Unsupported;
+        }
+        if code != 0 || buf.len() < 40 {
+            return Child::Crashed(code);
+        }
+        let w: Vec<u64> = buf.chunks_exact(8).map(|c| u64::from_le_bytes(c.try_into().unwrap())).collect();
+        let res = if w[0] == 9 {
+            Err("(message printed by the child)".to_string())
+        } else {
+            let c = match w[0] {
+                0 => Ctor::Ok,
+                1 => Ctor::NotRecursive,
+                _ => Ctor::NotActive,
+            };
+            let used = match w[2] {
+                3 => None,
+                0 => Some((w[1], Probe::Frame(w[3]))),
+                1 => Some((w[1], Probe::NotMapped)),
+                _ => Some((w[1], Probe::Other)),
+            };
+            Ok((c, used))
+        };
+        let trace = w[5..].chunks_exact(2).map(|p| if p[0] == 1 { Ev::ReadCr { cr: 3, val: p[1] } } else { Ev::Hlt }).collect();
+        Child::Done(res, trace, w[4])
     }
 }
 
@@ -298,7 +418,11 @@ pub fn run(rp: &Replay, st: &mut Stats) -> Option<Violation> {
                 let lower_ok = (R_MIN..=R_MAX).contains(&idx[0]);
                 // a recursive address must be backed (the constructor reads the table), and the
                 // harness can only back the free user-space slots
-                if recursive && !lower_ok {
+                // kernel-half recursive addresses (index 256..=511) cannot be backed by a ring-3
+                // process: their pages are shadow pages behind the simulator's redirect, and the
+                // step runs in a forked child
+                let upper = recursive && idx[0] >= 256;
+                if recursive && !lower_ok && !upper {
                     st.count("ctor_skipped_unbackable_address");
                     continue;
                 }
@@ -317,7 +441,7 @@ pub fn run(rp: &Replay, st: &mut Stats) -> Option<Violation> {
                 } else {
                     Ctor::NotActive
                 };
-                let mut maps = Maps(vec![]);
+                let mut maps = Maps::new();
                 let mut probe_addr = None;
                 if mapped {
                     if !maps.map(addr) {
@@ -362,7 +486,7 @@ pub fn run(rp: &Replay, st: &mut Stats) -> Option<Violation> {
                         probe_addr = Some(compose(pidx[0], pidx[1], pidx[2], pidx[3]));
                     }
                 }
-                let switch_from = s["switch_from"].as_u64().map(|x| x & (ADDR | 0x18));
+                let switch_from = s["switch_from"].as_u64().map(|x| x & (ADDR | 0x18)).filter(|_| !upper);
                 world().cpu.cr3 = switch_from.unwrap_or(cr3);
                 // (Cr3::write takes typed flags: only bits 3 and 4 of the new value survive)
                 let cr3 = if switch_from.is_some() { cr3 & (ADDR | 0x18) } else { cr3 };
@@ -373,12 +497,33 @@ pub fn run(rp: &Replay, st: &mut Stats) -> Option<Violation> {
                 } else {
                     Ctor::NotActive
                 };
-                let res = sut_call("RecursivePageTable::new", || match switch_from {
-                    Some(_) => call_new_switched(addr, probe_addr, cr3).1,
-                    None => call_new(addr, probe_addr),
-                });
+                let (res, trace) = if upper {
+                    world().redirect_log.clear();
+                    match in_child(|| {
+                        let r = sut_call("RecursivePageTable::new", || call_new(addr, probe_addr));
+                        (r, std::mem::take(&mut world().cpu.trace), world().redirect_log.len() as u64)
+                    }) {
+                        Child::Done(r, t, n) => {
+                            st.count("ctor_kernel_half_recursive_index");
+                            st.add("redirected_accesses", n);
+                            (r, t)
+                        }
+                        Child::Unsupported => {
+                            st.count("ctor_kernel_half_unsupported_instruction");
+                            continue;
+                        }
+                        Child::Crashed(code) => {
+                            return Some(viol(P, "fatal-fault", i, format!("RecursivePageTable::new on the table at indices ({0}, {0}, {0}, {0}) (slot = {slot:#x}, CR3 = {cr3:#x}) made an access the simulated machine cannot resolve (child exit {code})", idx[0])));
+                        }
+                    }
+                } else {
+                    let res = sut_call("RecursivePageTable::new", || match switch_from {
+                        Some(_) => call_new_switched(addr, probe_addr, cr3).1,
+                        None => call_new(addr, probe_addr),
+                    });
+                    (res, std::mem::take(&mut world().cpu.trace))
+                };
                 st.calls += 1;
-                let trace = std::mem::take(&mut world().cpu.trace);
                 drop(maps);
                 let form = format!("table address with indices ({}, {}, {}, {})", idx[0], idx[1], idx[2], idx[3]);
                 let (got, used) = match res {
